@@ -208,13 +208,18 @@ class WSGIContainer:
         .. versionchanged:: 6.3
            No longer a static method.
         """
-        hostport = request.host.split(":")
-        if len(hostport) == 2:
-            host = hostport[0]
-            port = int(hostport[1])
+        # Split an optional ":port" suffix off the Host header. The host itself
+        # may contain colons (an IPv6 literal such as "[::1]"), and the port may
+        # be empty ("example.com:"), which means the default port.
+        host, sep, port = request.host.rpartition(":")
+        if not sep or not (port == "" or (port.isascii() and port.isdigit())):
+            host, port = request.host, ""
+        # Normalize the port like str(int(port)) would, but without the length
+        # limit of int().
+        if port:
+            port = port.lstrip("0") or "0"
         else:
-            host = request.host
-            port = 443 if request.protocol == "https" else 80
+            port = "443" if request.protocol == "https" else "80"
         environ = {
             "REQUEST_METHOD": request.method,
             "SCRIPT_NAME": "",
@@ -224,7 +229,7 @@ class WSGIContainer:
             "QUERY_STRING": request.query,
             "REMOTE_ADDR": request.remote_ip,
             "SERVER_NAME": host,
-            "SERVER_PORT": str(port),
+            "SERVER_PORT": port,
             "SERVER_PROTOCOL": request.version,
             "wsgi.version": (1, 0),
             "wsgi.url_scheme": request.protocol,
